@@ -1,4 +1,20 @@
 mod ops_eval;
+mod ops_sort;
+mod ops_lex;
+mod ops_parse;
+mod ops_json;
+mod ops_codec;
+mod ops_obj;
+mod ops_fmt;
+mod ops_str;
+mod ops_cmp;
+mod ops_core;
+mod ops_ana;
+mod ops_thunk;
+mod ops_tstack;
+mod ops_num;
+mod ops_cli;
+mod ops_imp;
 mod ops_hist;
 mod ops_span;
 mod util;
@@ -24,6 +40,22 @@ fn dispatch(line: &str) -> String {
         "span" => ops_span::handle(args),
         "eval" => ops_eval::handle(args),
         "hist" => ops_hist::handle(args),
+        "sort" => ops_sort::handle(args),
+        "lex" => ops_lex::handle(args),
+        "parse" => ops_parse::handle(args),
+        "json" => ops_json::handle(args),
+        "codec" => ops_codec::handle(args),
+        "obj" => ops_obj::handle(args),
+        "fmt" => ops_fmt::handle(args),
+        "str" => ops_str::handle(args),
+        "cmp" => ops_cmp::handle(args),
+        "core" => ops_core::handle(args),
+        "ana" => ops_ana::handle(args),
+        "thunk" => ops_thunk::handle(args),
+        "tstack" => ops_tstack::handle(args),
+        "num" => ops_num::handle(args),
+        "cli" => ops_cli::handle(args),
+        "imp" => ops_imp::handle(args),
         "gcscript" => Some(rsjsonnet_lang::verif::run_script(args).join(";")),
         _ => None,
     });
